@@ -150,7 +150,27 @@ fn replay(run: &Run, case: &Value) -> Vec<Violation> {
         check_one_over(run, &x, &mut t);
         return vec![];
     }
+    if let Some(a) = case.get("after") {
+        let first = (a["p"].as_u64().unwrap(), Mode::from_name(a["mode"].as_str().unwrap()).unwrap());
+        return check_after(&bd(&x), &x, first, (case["p"].as_u64().unwrap(), Mode::from_name(case["mode"].as_str().unwrap()).unwrap()));
+    }
     check(&bd(&x), &x, case["p"].as_u64().unwrap(), Mode::from_name(case["mode"].as_str().unwrap()).unwrap())
+}
+
+/// one call preceded by another call on the same operand (same thread): the function is pure, so the second
+/// result must be what the model says whatever came first; a violation records the history
+fn check_after(xb: &BigDecimal, x: &Dec, first: (u64, Mode), second: (u64, Mode)) -> Vec<Violation> {
+    let c1 = ctx(first.0, first.1);
+    let _ = guard(|| xb.inverse_with_context(&c1));
+    check(xb, x, second.0, second.1)
+        .into_iter()
+        .map(|mut v| {
+            if let Some(o) = v.case.as_object_mut() {
+                o.insert("after".into(), json!({"p": first.0, "mode": first.1.name()}));
+            }
+            v.attr("history", true)
+        })
+        .collect()
 }
 
 fn main() {
@@ -294,6 +314,41 @@ fn main() {
     run.par_opts("S4b patterns at every length", s4b.len(), 60, &|i| json!({"x": s4b[i].show()}), |i| {
         let mut t = Tally::default();
         sweep(&run, &s4b[i], &s4bp, &mut t);
+        t
+    });
+    // S6: call histories of length two on each operand (every ordered pair of (precision, mode) settings from a
+    // small set, and the descending chain of precisions under each mode)
+    let hx: Vec<Dec> = vec![Dec::new(3, 0), Dec::new(7, 0), Dec::new(-3, 1), Dec::new(11, 2), Dec::new(6, 0), Dec::new(13, -1), Dec::new(17, 0), Dec::new(9, 0), Dec::new(99, 0), Dec::new(101, 0), Dec::new(12345, 3), Dec { n: pow10(19) + 7, s: 0 }];
+    let hp: Vec<u64> = tier.pick(vec![1, 2, 3, 5, 17, 18], vec![1, 2, 3, 4, 5, 8, 16, 17, 18, 19, 34]);
+    run.bound("S6_history_operands", hx.len());
+    run.bound("S6_history_precisions", json!(hp));
+    run.par("S6 call histories of length two", hx.len(), |i| {
+        let mut t = Tally::default();
+        let x = &hx[i];
+        let xb = bd(x);
+        t.states += 1;
+        for &p1 in hp.iter() {
+            for m1 in MODES {
+                for &p2 in hp.iter() {
+                    for m2 in MODES {
+                        t.transitions += 3;
+                        t.nontrivial += 1;
+                        for v in check_after(&xb, x, (p1, m1), (p2, m2)) {
+                            run.report(v);
+                        }
+                    }
+                }
+            }
+        }
+        for m in MODES {
+            for p in (1..tier.pick(40u64, 100)).rev() {
+                t.transitions += 3;
+                t.nontrivial += 1;
+                for v in check_after(&xb, x, (p + 1, m), (p, m)) {
+                    run.report(v);
+                }
+            }
+        }
         t
     });
     // S5: structured operands (word limits, word-crossing products, carry chains, all-ones words; the patterns
